@@ -160,6 +160,7 @@ def _run_calls(scn, tid, impl, conv, parser, orig_parse, captured, hostfns, name
             except Exception:
                 listed = None
         captured.clear()
+        AUDIT['events'] = []
         nvm_before = len(conv.vm)
         TRACER.start(conv, nodeids)
         n_enter0 = 0
@@ -209,6 +210,8 @@ def _run_calls(scn, tid, impl, conv, parser, orig_parse, captured, hostfns, name
                       'src': c['src']})
         if listed is not None:
             calls[-1]['listed'] = listed
+        if AUDIT['on']:
+            calls[-1]['audit'] = sorted(set(AUDIT['events']))
         if TRACER.overflow:
             break
     case = {'tid': tid, 'calls': calls, 'names0': names0, 'heap0': heap0, 'host': host_spec(host, ret_refs),
@@ -307,9 +310,28 @@ def validate(cases, deviations, procs=16, timeout=700, coverage=False, keep=None
     return verdicts, MultiResult(results)
 
 
+AUDIT = {'on': False, 'events': [], 'installed': False}
+
+
+def _audit_hook(event, args):
+    if AUDIT['on'] and TRACER.active:
+        AUDIT['events'].append(event)
+
+
+def enable_audit():
+    """Record Python audit events raised while eval runs (property C02).  A hook cannot be removed, so
+    it is installed once per process and gated by a flag."""
+    if not AUDIT['installed']:
+        sys.addaudithook(_audit_hook)
+        AUDIT['installed'] = True
+    AUDIT['on'] = True
+
+
 def _worker_init():
     os.environ['SMARTQUERY_VERIF'] = '1'
     TRACER.install()
+    if os.environ.get('VERIF_AUDIT') == '1':
+        enable_audit()
 
 
 def _worker_run(arg):
